@@ -288,7 +288,7 @@ func init() {
 		ID:    "C12",
 		Level: "exploration",
 		Rule: "all boolean skeletons with up to 3 (quick) / 4 (thorough) distinct atoms, plus seeded random skeletons with up to 5 / 6 atoms: every and/or chain, every placement of parentheses (incl. redundant ones) and of `not (...)`, nesting depth 2; each is rendered (canonical spelling and 3 re-spellings with random keyword case, " +
-			"whitespace at WS positions only, redundant parentheses), parsed, and its full truth table over all 2^N assignments (atoms are bool symbols; in a second pass typed comparisons; in a third pass a rotation of 13 operation kinds: in / between / not in / not between / contains / null test / isEmpty / count and anyOf / allOf over sets whose elements lie partly inside and partly outside the list or range; in a fourth pass every atom is an isEmpty / count sub-query over the same linked set with its own inner predicate; in a fifth pass, for a third of the skeletons, every atom is a set function over ONE shared set symbol and the expression is evaluated by a bolt store over 64 entities through QueryIds and IterateIds) is compared with the table computed from the structure with and > or. " +
+			"whitespace at WS positions only, redundant parentheses), parsed, and its full truth table over all 2^N assignments (atoms are bool symbols; in a second pass typed comparisons; in a third pass a rotation of 18 operation kinds: in / between / not in / not between / contains / null test / ordered comparisons that are false because the field is null / isEmpty / count and anyOf / allOf over sets whose elements lie partly inside and partly outside the list or range; in a fourth pass every atom is an isEmpty / count sub-query over the same linked set with its own inner predicate; in a fifth pass, for a third of the skeletons, every atom is a set function over ONE shared set symbol and the expression is evaluated by a bolt store over 64 entities through QueryIds and IterateIds) is compared with the table computed from the structure with and > or. " +
 			"Conjunctions composed through the API (SetPredicate + NewAndExprNode) over empty, constant, sort-only and ordinary base queries are evaluated against their truth tables. Then typed query templates (every operator incl. not in / not between / not contains / not icontains, set functions, lists) are re-spelled and their results over random rows must not change. non-trivial = distinct skeletons mixing and/or or containing not/parentheses",
 		Assumptions: []string{"bare `not` next to and/or (without parentheses) is not generated: the statement fixes only not (P)"},
 		Exhaustive:  func(core.Tier) bool { return true },
@@ -672,6 +672,12 @@ var c12Kinds = []c12Kind{
 	c12SetKind("count", "count", "ts", ">", "1", c12Strs("a", "b"), c12Strs("a")),
 	c12ScalarKind("int not between", "n", "not between", "1 and 3", int64(3), int64(1)),
 	c12ScalarKind("not null", "st", "!=", "null", "a", nil),
+	// ordered comparisons that are false because the field is null (an ordered comparison with null is false, so its
+	// negation is true - which no complementary comparison is)
+	c12ScalarKind("int < (false by null)", "n", "<", "3", int64(1), nil),
+	c12ScalarKind("string >= (false by null)", "st", ">=", `"a"`, "b", nil),
+	c12ScalarKind("int <= (false by null)", "n", "<=", "3", int64(3), nil),
+	c12ScalarKind("int > (false by null)", "n", ">", "3", int64(4), nil),
 	c12SetKind("allOf not between", "allOf", "ns", "not between", "1 and 3", []any{int64(0), int64(3)}, []any{int64(0), int64(2)}),
 }
 
